@@ -17,7 +17,7 @@ func main() {
 	r.Assume("order of transactions within a block is not compared (the store records insertion order; the property promises none)", "credited outputs have positive value (DESIGN O-6)")
 	n := r.N(120, 2500)
 	cfg := ledger.Config{MinSteps: 20, MaxSteps: r.N(70, 180), Balance: true, Details: true, Path: true, PathEvery: 8, ReorgHeavy: true, Reopen: true}
-	dir, _ := os.MkdirTemp("", "c02")
+	dir := r.TempDir("c02")
 	defer os.RemoveAll(dir)
 	r.Parallel("history", n, evid.Workers(), func(i int, cs int64) {
 		res := ledger.RunHistory(cfg, cs, dir)
